@@ -131,6 +131,7 @@ def _replay_group(cases):
     from . import c10_replay
     out = []
     rp = c10_replay.Replayer()
+    n0 = len(c10_replay.RELABEL_NOTES)
     with treelog.set(treelog.FilterLog(treelog.StdoutLog(), minlevel=treelog.proto.Level.error)):
         for c in cases:
             if time.time() > _DEADLINE:
@@ -143,6 +144,7 @@ def _replay_group(cases):
                 import traceback
                 return dict(harness_error=traceback.format_exc() + '\ncase: ' + json.dumps(c))
             out.append(('done', fail, ok))
+    rp.stats['cut_label_not_judged'] += len(c10_replay.RELABEL_NOTES) - n0
     return dict(res=out, stats=rp.stats)
 
 
